@@ -93,7 +93,12 @@ Theorem C10_analog_lines_use_the_XA_gain :
     IBL.C09.Model.analog_sync d = Some (m0 + m1, Z.max 0 m2) /\
     (forall i, In i (analog_indices 1 m0 m1 m2 m3) <-> m0 + m1 <= i < m0 + m1 + m2) /\
     (forall i, In i (analog_indices 1 m0 m1 m2 m3) ->
-       nth (Z.to_nat i) g IBL.C09.Model.C1 = IBL.C09.Model.CG (1, O)).
+       nth (Z.to_nat i) g IBL.C09.Model.C1 = IBL.C09.Model.CG (1, O)) /\
+    (* ascending on-disk order: analog line k of read_sync (column 16 + k, C10_analog_line_alone) is
+       the k-th XA channel, file column m0 + m1 + k *)
+    List.length (analog_indices 1 m0 m1 m2 m3) = Z.to_nat m2 /\
+    (forall k, (k < Z.to_nat m2)%nat -> nth k (analog_indices 1 m0 m1 m2 m3) 0 = m0 + m1 + Z.of_nat k) /\
+    Sorted.StronglySorted Z.lt (analog_indices 1 m0 m1 m2 m3).
 Proof.
   intros d rng mi gmn gma m0 m1 m2 m3 Hi Ht Hmn Hma Hx H0 H1 H2 H3 Hty.
   destruct (IBL.C09.Props.C09_s2v_nidq d rng mi gmn gma (m0, O) (m1, O) (m2, O) (m3, O)
@@ -110,7 +115,8 @@ Proof.
       by (intros m; unfold IBL.C09.Model.dec_trunc; cbn; apply Z.div_1_r).
     split; [rewrite Hl, !E; reflexivity|]. split.
     + apply (proj2 (IBL.C09.Props.C09_analog_sync_table d) m0 m1 m2 (m3, O) Hty Hx).
-    + split; [exact Hin|]. intros i Hi'. apply Hin in Hi'.
+    + split; [exact Hin|]. split; [|exact (analog_indices_order m0 m1 m2 m3)].
+      intros i Hi'. apply Hin in Hi'.
       unfold IBL.C09.Model.zrepeat.
       rewrite !E. apply nth_block. lia.
 Qed.
